@@ -28,12 +28,14 @@ Init == /\ \E what \in {"best", "last"} : \E flip \in BOOLEAN : \E tol \in {"non
 \* with tolerance None every result counts as feasible
 Eff(ev) == LET e == IF par.srcs = "set" THEN ev ELSE [ev EXCEPT !.src = "other"]
            IN IF par.tolnone THEN [e EXCEPT !.items = [j \in 1..Len(e.items) |-> [e.items[j] EXCEPT !.feas = TRUE]]] ELSE e
-Next == /\ Len(hist) < L
+\* (trackers without sources hold nothing whatever happens: their histories stop at length 3)
+Cap == IF par.srcs = "set" \/ L < 3 THEN L ELSE 3
+Next == /\ Len(hist) < Cap
         /\ \E ev \in Events(Len(hist) + 1) :
              /\ hist' = Append(hist, ev)
              /\ kept' = Update(par.what, kept, Eff(ev), par.flip)
              /\ UNCHANGED par
 EffHist == [i \in 1..Len(hist) |-> Eff(hist[i])]
 InvHolds == Holds(par.what, kept.id, EffHist, par.flip)
-InvEmit == Len(hist) = L /\ Emit => PrintT(ToJson([par |-> par, events |-> hist]))
+InvEmit == Len(hist) = Cap /\ Emit => PrintT(ToJson([par |-> par, events |-> hist]))
 =============================================================================
